@@ -259,6 +259,8 @@ def write_evidence(prop, tier, seed, t0, obligations, discharged, checker_cmd, e
                rule=rule, samples=samples)
     if extra:
         cov.update(extra)
+    if COQCHK and tier == "thorough":
+        cov["coqchk"] = COQCHK
     ev = dict(property_id=prop, tier=tier, seed=seed, level=level, coverage=cov,
               assumptions=assumptions or [], wall_s=round(time.time() - t0, 2), violations=violations)
     os.makedirs(EVID, exist_ok=True)
@@ -316,6 +318,11 @@ def proof_stage(prop, propfile, extra_targets=()):
         res["failure"] = "axioms outside the allow-list, or a Print Assumptions result is missing: %s (closed=%d, axiom blocks=%d, expected %d)" % (
             bad_ax, info["closed"], out.count("Axioms:"), len(info["print_assumptions"]))
         return res
+    if TIER == "thorough":
+        bad_chk = coqchk_stage(propfile)
+        if bad_chk:
+            res["failure"] = bad_chk
+            return res
     res["ok"] = True
     res["discharged"] = res["obligations"]
     return res
@@ -324,6 +331,32 @@ def proof_stage(prop, propfile, extra_targets=()):
 def coqchk(prop_vo, timeout=1500):
     rc, out, dt = run(["timeout", str(timeout), "coqchk", "-o", "-silent", "-Q", ".", "TI", prop_vo], cwd=COQ, timeout=timeout + 60)
     return rc == 0, out
+
+
+TIER = "quick"          # set by ./check before a run
+COQCHK = None           # summary of the last coqchk run (thorough tier), copied into the evidence
+
+
+def coqchk_stage(propfile):
+    """Thorough tier: re-check the compiled property file and everything it depends on with Coq's independent
+    checker; the context summary must list no axiom, no type-in-type, no unsafe fixpoint, no assumed positivity."""
+    global COQCHK
+    mod = "TI." + propfile[:-2].replace("/", ".")
+    t0 = time.time()
+    ok, out = coqchk(mod)
+    want = ["Axioms", "Constants/Inductives relying on type-in-type", "Constants/Inductives relying on unsafe (co)fixpoints",
+            "Inductives whose positivity is assumed"]
+    got = {}
+    for w in want:
+        m = re.search(r"\* " + re.escape(w) + r":\s*(.*?)\n\s*\n", out + "\n\n", re.S)
+        got[w] = m.group(1).strip() if m else "<missing>"
+    COQCHK = dict(module=mod, seconds=round(time.time() - t0, 1), summary=got)
+    if not ok:
+        return "coqchk rejects %s: %s" % (mod, out[-1500:])
+    bad = {w: v for w, v in got.items() if v != "<none>"}
+    if bad:
+        return "coqchk context summary of %s is not clean: %s" % (mod, bad)
+    return None
 
 
 def extra_setup_steps():
